@@ -29,10 +29,11 @@ CLAIMED = {
         ref="DESIGN.md 5/C01"),
     "C06": dict(
         text="Coq theorem over the L1 pipeline: for every schema, value (JSON, typed, json.Number), options, oracle answers and numeric "
-             "implementation, at every fuel, the only panic is the documented unresolvable-reference panic; the unguarded composition "
-             "cycle is proved to exhaust every fuel (recorded finding). Tie: returned/panicked compared on random, malformed, deep and "
+             "implementation, at every fuel, the only panic is the documented unresolvable-reference panic; on schemas without "
+             "references a verdict is returned as soon as the fuel exceeds the nesting depth (termination, by induction on the "
+             "depth through every keyword group); the unguarded composition cycle is proved to exhaust every fuel (recorded finding). Tie: returned/panicked compared on random, malformed, deep and "
              "extreme cases through both entry points; the cycle witness is replayed in a child process.",
-        note=TB + "No axioms. Termination (existence of a verdict) is proved only negatively (the cycle); Go stack/heap exhaustion is not modelled.",
+        note=TB + "No axioms. Termination is proved for schemas without references and refuted for the composition cycle; the guarded-reference class in between is covered by the tie only; Go stack/heap exhaustion is not modelled.",
         tech="Rocq proof (panic-freedom by induction on fuel over all keyword groups) + outcome correspondence",
         ref="DESIGN.md 5/C06"),
     "C17": dict(
